@@ -70,6 +70,23 @@ func c12Types(thorough bool) []c12Type {
 			add(symbols.NewStructType(f, x, symbols.NewOpt(g, y)))
 		}
 	}
+	// tuples of different lengths over the same components; tagged unions over different tag sets and field types
+	for _, x := range A[1:5] {
+		for _, y := range A[1:5] {
+			add(symbols.NewTupleType(x, y, ast.NumberBound, ast.StringBound))
+			add(symbols.NewTupleType(ast.NumberBound, x, y))
+		}
+	}
+	add(symbols.NewTupleType(ast.NumberBound, ast.NumberBound, ast.NumberBound))
+	add(symbols.NewTupleType(ast.NumberBound, ast.NumberBound, ast.NumberBound, ast.NumberBound))
+	add(symbols.NewTupleType(ast.AnyBound, ast.AnyBound, ast.AnyBound))
+	add(symbols.NewTupleType(ast.AnyBound, ast.AnyBound, ast.AnyBound, ast.AnyBound))
+	add(symbols.NewTaggedUnionType(n("/kind"), n("/k2"), symbols.NewStructType(g, ast.StringBound)))
+	add(symbols.NewTaggedUnionType(n("/kind"), n("/k1"), symbols.NewStructType(f, ast.StringBound), n("/k2"), symbols.NewStructType(g, ast.StringBound)))
+	add(symbols.NewTaggedUnionType(n("/tag"), n("/k1"), symbols.NewStructType(f, ast.NumberBound)))
+	add(symbols.NewStructType(n("/kind"), n("/k1"), f, ast.NumberBound))
+	add(symbols.NewStructType(n("/kind"), ast.NameBound, f, ast.NumberBound))
+	add(symbols.NewStructType(n("/kind"), symbols.NewSingletonType(n("/k1")), f, ast.NumberBound))
 	add(symbols.NewStructType())
 	add(symbols.NewUnionType())
 	add(symbols.NewTaggedUnionType(n("/kind"), n("/k1"), symbols.NewStructType(f, ast.NumberBound), n("/k2"), symbols.NewStructType(g, ast.StringBound)))
@@ -133,6 +150,17 @@ func c12Consts() []ast.Constant {
 		*ast.Map(map[*ast.Constant]*ast.Constant{&ax: &one}), *ast.Struct(map[*ast.Constant]*ast.Constant{&f: &one}), *ast.Struct(map[*ast.Constant]*ast.Constant{&f: &ax, &g: &one}), s,
 		*ast.Map(map[*ast.Constant]*ast.Constant{&abz: &one}), ast.List([]ast.Constant{abz})}
 	out = append(out, mk(l2)...)
+	// tuple-shaped values (right-nested pairs) of length 3 and 4, and structs with a tag field
+	P := func(a, b ast.Constant) ast.Constant { return ast.Pair(&a, &b) }
+	two := ast.Number(2)
+	for _, x := range []ast.Constant{one, s, ax, abz} {
+		for _, y := range []ast.Constant{one, s, ax} {
+			out = append(out, P(x, P(y, one)), P(x, P(y, P(one, s))), P(one, P(x, y)), P(x, P(y, P(two, two))))
+		}
+	}
+	tag := n("/tag")
+	out = append(out, *ast.Struct(map[*ast.Constant]*ast.Constant{&tag: &k1, &f: &one}), *ast.Struct(map[*ast.Constant]*ast.Constant{&kind: &k1, &f: &s}),
+		*ast.Struct(map[*ast.Constant]*ast.Constant{&kind: &ax, &f: &one}), *ast.Struct(map[*ast.Constant]*ast.Constant{&kind: &one, &f: &one}))
 	return out
 }
 
@@ -315,13 +343,15 @@ func explain(t ast.BaseTerm, v ast.Constant) string {
 		return "-explained-by-struct-width"
 	case relaxedHasType(t, v, true, true):
 		return "-explained-by-map-key-variance+struct-width"
+	case relaxedHasType(t, v, false, false, true):
+		return "-explained-by-tagged-union-name-tags"
 	}
 	return ""
 }
 
 // relaxedHasType mirrors TypeHandle.HasType with two optional relaxations (used for attribution only).
-func relaxedHasType(t ast.BaseTerm, c ast.Constant, anyMapKey, openStruct bool) bool {
-	if !anyMapKey && !openStruct {
+func relaxedHasType(t ast.BaseTerm, c ast.Constant, anyMapKey, openStruct bool, tagAnyName ...bool) bool {
+	if !anyMapKey && !openStruct && !(len(tagAnyName) > 0 && tagAnyName[0]) {
 		h, err := symbols.NewSetHandle(t)
 		return err == nil && h.HasType(c)
 	}
@@ -333,7 +363,7 @@ func relaxedHasType(t ast.BaseTerm, c ast.Constant, anyMapKey, openStruct bool) 
 	if !ok {
 		return false
 	}
-	rec := func(t ast.BaseTerm, c ast.Constant) bool { return relaxedHasType(t, c, anyMapKey, openStruct) }
+	rec := func(t ast.BaseTerm, c ast.Constant) bool { return relaxedHasType(t, c, anyMapKey, openStruct, tagAnyName...) }
 	switch tpe.Function.Symbol {
 	case "fn:Pair":
 		a, b, err := c.PairValue()
@@ -428,6 +458,21 @@ func relaxedHasType(t ast.BaseTerm, c ast.Constant, anyMapKey, openStruct bool) 
 		}
 		return false
 	case "fn:TaggedUnion":
+		if len(tagAnyName) > 0 && tagAnyName[0] {
+			// the library's own expansion "for bounds": the tag field may hold any name
+			tagField, err1 := symbols.TaggedUnionTagField(tpe)
+			_, structs, err2 := symbols.TaggedUnionVariants(tpe)
+			if err1 != nil || err2 != nil {
+				return false
+			}
+			for _, st := range structs {
+				args := append([]ast.BaseTerm{tagField, ast.NameBound}, st.(ast.ApplyFn).Args...)
+				if rec(symbols.NewStructType(args...), c) {
+					return true
+				}
+			}
+			return false
+		}
 		ex, err := symbols.ExpandTaggedUnionType(tpe)
 		return err == nil && rec(ex, c)
 	}
